@@ -56,6 +56,7 @@ let bits_cls m = let b = Zar.numbits m in
 (* expected outcome of a macro invocation *)
 type exp = Reject | Accept of string * string * string * string   (* answer up to "rt", run-time answer, class, canonical run-time text *)
 let starts_with p s = String.length s >= String.length p && String.sub s 0 (String.length p) = p
+
 let drop_plus s = String.concat "" (String.split_on_char '+' s)
 
 (* the source text as the harness assembles it from the pieces of the case *)
@@ -83,7 +84,7 @@ let after key l = let rec go = function [] -> [] | x :: r -> if x = key then r e
 let between a b l = let rec upto = function [] -> [] | x :: r -> if x = b then [] else x :: upto r in upto (after a l)
 
 (* the end-to-end as-is models against the implementation's value / refusal / run-time answer *)
-let pipeline_fidelity op flags case_radix toks tail =
+let pipeline_fidelity op flags case_radix case_rt toks tail =
   let radix_of b = (match b with None -> 0 | Some bt -> (try int_of_string (text_of_bytes bt) with _ -> -1)) in
   let static_ = String.contains flags 's' in
   let is_reject = (match tail with "reject" :: _ -> true | _ -> false) in
@@ -96,7 +97,8 @@ let pipeline_fidelity op flags case_radix toks tail =
     let main = (match m with None -> is_reject | Some zv -> (not is_reject) && value = [ hx zv ]) in
     (* the run-time parser model on sign + value, when the harness parsed the same text *)
     let rtok = (match int_tokens_asis signed_ toks, rt with
-      | Some ((neg, v), b), [ r ] when r <> "na" && value_text_ok v && radix_of b = case_radix && case_radix <> 0 || (b = None && r <> "na" && value_text_ok v && case_radix = 0) ->
+      | Some ((neg, v), b), [ r ] when r <> "na" && value_text_ok v && ((b <> None && case_radix <> 0 && radix_of b = case_radix) || (b = None && case_radix = 0))
+             && case_rt = Some ((if neg then "-" else "") ^ text_of_bytes v) ->
         (match int_runtime w64z signed_ neg v b with Some zv -> r = hx zv | None -> r = "err")
       | _ -> true) in
     main && rtok
@@ -112,8 +114,10 @@ let pipeline_fidelity op flags case_radix toks tail =
       | Some (_, (a, c)) -> (not is_reject) && value = [ hx a; hx c ]) in
     let rtok = (match rat_tokens_asis toks, rt with
       | Some o, (_ :: _ as r) when r <> [ "na" ] && rat_texts_ok o ->
-        let ((((rel, _), _), _), b) = o in
-        if rel <> String.contains flags 'x' || radix_of b <> case_radix || (b <> None && case_radix = 0) then true
+        let ((((rel, nneg), n), d), b) = o in
+        let canon = (if nneg then "-" else "") ^ text_of_bytes n ^
+                    (match d with None -> "" | Some (dneg, dt) -> "/" ^ (if dneg then "-" else "") ^ text_of_bytes dt) in
+        if rel <> String.contains flags 'x' || radix_of b <> case_radix || (b <> None && case_radix = 0) || case_rt <> Some canon then true
         else (match rat_runtime w64z o with Some (a, c) -> r = [ hx a; hx c ] | None -> r = [ "err" ])
       | _ -> true) in
     main && rtok
@@ -124,8 +128,9 @@ let with_asis (v : verdict) fid = { v with extra = v.extra ^ (if fid then " asis
 let rec judge op args got =
   let v = judge0 op args got in
   match args with
-  | flags :: radix :: _ :: pieces ->
+  | flags :: radix :: rttext :: pieces ->
     let case_radix = (try int_of_string ("0x" ^ radix) with _ -> -1) in
+    let case_rt = if rttext = "-" then None else Some (drop_plus (text_of_bytes (unhex (String.sub rttext 1 (String.length rttext - 1))))) in
     (match got with
      | [ "lexerr" ] ->
        (match lexer_fidelity pieces None with None -> v | Some f -> with_asis v f)
@@ -135,9 +140,10 @@ let rec judge op args got =
           let tks, tail = take n rest in
           let toks = List.map tok_of tks in
           let lf = (match lexer_fidelity pieces (Some toks) with None -> true | Some f -> f) in
-          let pf = pipeline_fidelity op flags case_radix toks tail in
+          let pf = pipeline_fidelity op flags case_radix case_rt toks tail in
           let v = with_asis v (lf && pf) in
-          { v with extra = v.extra ^ (if lf then "" else " lexer=diff") ^ (if pf then "" else " pipeline=diff") }
+          let lexcls = (match lexer_fidelity pieces (Some toks) with None -> " path=lexer:unmodelled-text" | Some _ -> " path=lexer:modelled") in
+          { v with extra = v.extra ^ lexcls ^ (if lf then "" else " lexer=diff") ^ (if pf then "" else " pipeline=diff") }
         with _ -> with_asis v false)
      | _ -> v)
   | _ -> v
